@@ -48,7 +48,7 @@ func idKind(v ssa.Value) string {
 		}
 	case *ssa.Call:
 		if fn := calleeFunc(x); fn != nil {
-			switch fn.Name() {
+			switch nm(fn) {
 			case "Uid":
 				return "uid"
 			case "Gid":
@@ -56,7 +56,7 @@ func idKind(v ssa.Value) string {
 			}
 		}
 	case *ssa.Parameter:
-		switch x.Name() {
+		switch nm(x) {
 		case "uid":
 			return "uid"
 		case "gid":
@@ -221,7 +221,7 @@ func c16Trunc(rc *RuleCtx) {
 		if fn == nil || !ci.Common().IsInvoke() || ci.Common().Value != ssa.Value(dstFs) {
 			return
 		}
-		switch fn.Name() {
+		switch nm(fn) {
 		case "Create":
 			ok = true
 		case "OpenFile":
@@ -291,7 +291,7 @@ func c17VolKey(rc *RuleCtx) {
 			case *ssa.MapUpdate:
 				check(x, x.Map, x.Key, "insert")
 			case *ssa.Call:
-				if b, ok := x.Call.Value.(*ssa.Builtin); ok && b.Name() == "delete" && len(x.Call.Args) == 2 {
+				if b, ok := x.Call.Value.(*ssa.Builtin); ok && nm(b) == "delete" && len(x.Call.Args) == 2 {
 					check(x, x.Call.Args[0], x.Call.Args[1], "delete")
 				}
 			}
@@ -359,7 +359,7 @@ func c05RootPair(rc *RuleCtx) {
 		n := 0
 		eachCall(f, func(ci ssa.CallInstruction) {
 			fn := calleeFunc(ci)
-			if fn == nil || fn.Name() != "removeChild" {
+			if fn == nil || nm(fn) != "removeChild" {
 				return
 			}
 			recv := callRecv(ci)
@@ -371,7 +371,7 @@ func c05RootPair(rc *RuleCtx) {
 				return
 			}
 			wc, isCall := pe.Tuple.(*ssa.Call)
-			if !isCall || calleeFunc(wc) == nil || calleeFunc(wc).Name() != "searchNode" {
+			if !isCall || calleeFunc(wc) == nil || nm(calleeFunc(wc)) != "searchNode" {
 				return
 			}
 			var ce *ssa.Extract
@@ -440,7 +440,7 @@ func knownDir(site ssa.Instruction, v ssa.Value, depth int) bool {
 		return false
 	}
 	if c, _ := resultOfCall(v); c != nil {
-		if fn := calleeFunc(c); fn != nil && fn.Name() == "createDir" {
+		if fn := calleeFunc(c); fn != nil && nm(fn) == "createDir" {
 			return true
 		}
 	}
@@ -478,7 +478,7 @@ func c05ParDir(rc *RuleCtx) {
 				return
 			}
 			var parent ssa.Value
-			switch fn.Name() {
+			switch nm(fn) {
 			case "addChild":
 				parent = callRecv(ci)
 			case "createDir", "createFile", "createNode":
@@ -524,7 +524,7 @@ func rawAbsSource(c *Config, v ssa.Value, depth int, seen map[ssa.Value]bool) ss
 		if fn == nil {
 			return nil
 		}
-		switch fn.Name() {
+		switch nm(fn) {
 		case "absKey":
 			return nil
 		case "Abs":
@@ -672,7 +672,7 @@ func c01RootKey(rc *RuleCtx) {
 					check(x, x.Key, "insert")
 				}
 			case *ssa.Call:
-				if b, ok := x.Call.Value.(*ssa.Builtin); ok && b.Name() == "delete" && len(x.Call.Args) == 2 && isNodes(x.Call.Args[0]) {
+				if b, ok := x.Call.Value.(*ssa.Builtin); ok && nm(b) == "delete" && len(x.Call.Args) == 2 && isNodes(x.Call.Args[0]) {
 					check(x, x.Call.Args[1], "delete")
 				}
 			}
@@ -691,7 +691,7 @@ func c07WalkErr(rc *RuleCtx) {
 		var walks []*ssa.Call
 		eachCall(f, func(ci ssa.CallInstruction) {
 			if c, ok := ci.(*ssa.Call); ok {
-				if fn := calleeFunc(c); fn != nil && fn.Name() == "searchNode" {
+				if fn := calleeFunc(c); fn != nil && nm(fn) == "searchNode" {
 					walks = append(walks, c)
 				}
 			}
@@ -980,7 +980,7 @@ func c04Resolved(rc *RuleCtx) {
 	for _, f := range rc.C.srcFuncs("memfs") {
 		walks := 0
 		eachCall(f, func(ci ssa.CallInstruction) {
-			if fn := calleeFunc(ci); fn != nil && fn.Name() == "searchNode" {
+			if fn := calleeFunc(ci); fn != nil && nm(fn) == "searchNode" {
 				walks++
 			}
 		})
@@ -1029,7 +1029,7 @@ func c06Recheck(rc *RuleCtx) {
 		creates := false
 		eachCall(f, func(ci ssa.CallInstruction) {
 			if fn := calleeFunc(ci); fn != nil {
-				switch fn.Name() {
+				switch nm(fn) {
 				case "createDir", "createFile", "createSymlink", "addChild":
 					creates = true
 				}
@@ -1647,7 +1647,7 @@ func c05Overwrite(rc *RuleCtx) {
 	var walks []*ssa.Call
 	eachCall(f, func(ci ssa.CallInstruction) {
 		if c, ok := ci.(*ssa.Call); ok {
-			if fn := calleeFunc(c); fn != nil && fn.Name() == "searchNode" {
+			if fn := calleeFunc(c); fn != nil && nm(fn) == "searchNode" {
 				walks = append(walks, c)
 			}
 		}
@@ -1671,7 +1671,7 @@ func c05Overwrite(rc *RuleCtx) {
 	}
 	var ins ssa.CallInstruction
 	eachCall(f, func(ci ssa.CallInstruction) {
-		if fn := calleeFunc(ci); fn != nil && fn.Name() == "addChild" {
+		if fn := calleeFunc(ci); fn != nil && nm(fn) == "addChild" {
 			ins = ci
 		}
 	})
@@ -1685,7 +1685,7 @@ func c05Overwrite(rc *RuleCtx) {
 	releases := func(ta *ssa.TypeAssert) bool {
 		rel := false
 		eachCall(f, func(ci ssa.CallInstruction) {
-			if fn := calleeFunc(ci); fn != nil && fn.Name() == "delete" {
+			if fn := calleeFunc(ci); fn != nil && nm(fn) == "delete" {
 				if r := callRecv(ci); r != nil {
 					if e, ok := strip(r).(*ssa.Extract); ok && e.Tuple == ssa.Value(ta) {
 						rel = true
@@ -1756,7 +1756,7 @@ func c05Overwrite(rc *RuleCtx) {
 					}
 				}
 			case *ssa.Call:
-				if fn := calleeFunc(x); fn != nil && fn.Name() == "isNotExist" && truth && nErr != nil {
+				if fn := calleeFunc(x); fn != nil && nm(fn) == "isNotExist" && truth && nErr != nil {
 					for _, a := range callArgs(x) {
 						if strip(resolve1(a)) == ssa.Value(nErr) {
 							ok = true // the destination walk found nothing
@@ -1766,7 +1766,7 @@ func c05Overwrite(rc *RuleCtx) {
 			case *ssa.Extract:
 				if ta, isTA := x.Tuple.(*ssa.TypeAssert); isTA && x.Index == 1 && truth && isNChild(ta.X) {
 					if nt := namedOf(ta.AssertedType); nt != nil {
-						switch nt.Obj().Name() {
+						switch nm(nt.Obj()) {
 						case "symlinkNode":
 							ok = true
 						case "fileNode":
@@ -1814,7 +1814,7 @@ func c05MkdirOrder(rc *RuleCtx) {
 	// the creating call and the index expression its path argument comes from
 	var create ssa.CallInstruction
 	eachCall(f, func(ci ssa.CallInstruction) {
-		if fn := calleeFunc(ci); fn != nil && fn.Name() == "createDir" {
+		if fn := calleeFunc(ci); fn != nil && nm(fn) == "createDir" {
 			create = ci
 		}
 	})
@@ -1918,7 +1918,7 @@ func c03LinkOrder(rc *RuleCtx) {
 			return
 		}
 		if fn := calleeFunc(c); fn != nil {
-			switch fn.Name() {
+			switch nm(fn) {
 			case "searchNode":
 				walks = append(walks, c)
 			case "checkPermission":
@@ -2136,7 +2136,7 @@ func init() {
 func c03KeepID(rc *RuleCtx) {
 	for _, pk := range []string{"memfs", "orefafs"} {
 		for _, f := range rc.C.srcFuncs(pk) {
-			if f.Name() != "setOwner" {
+			if nm(f) != "setOwner" {
 				continue
 			}
 			eachInstr(f, func(in ssa.Instruction) {
@@ -2209,7 +2209,7 @@ func c05SameNode(rc *RuleCtx) {
 			if _, isDefer := ci.(*ssa.Defer); isDefer {
 				return
 			}
-			if fn := calleeFunc(ci); fn != nil && (fn.Name() == "delete" || fn.Name() == "remove") {
+			if fn := calleeFunc(ci); fn != nil && (nm(fn) == "delete" || nm(fn) == "remove") {
 				muts = append(muts, ci)
 				return
 			}
@@ -2263,7 +2263,7 @@ func c05SameNode(rc *RuleCtx) {
 							ok = true
 						}
 					case *ssa.Call:
-						if fn := calleeFunc(x); fn != nil && fn.Name() == "isNotExist" && truth {
+						if fn := calleeFunc(x); fn != nil && nm(fn) == "isNotExist" && truth {
 							for _, arg := range callArgs(x) {
 								if isNew(arg) {
 									ok = true
